@@ -1,6 +1,9 @@
 import RulesModel.Tie.Common
+import RulesModel.Proofs.TableSem
 /-! Tie T2 (VersionOperation): shapes of the methods as read from the Go source by the translator -/
 namespace Rules.Tie
 theorem OpsVersion_keys : (rowsOf ["VersionOperation."] Generated.opTable).map (·.1) = (rowsOf ["VersionOperation."] Expected.opTable).map (·.1) := by decide +kernel
 theorem OpsVersion_tie : (rowsOf ["VersionOperation."] Generated.opTable).all (rowOK Expected.opTable) = true := by decide +kernel
+/-- semantic form: each recognised row parses to the code whose meaning `TableSem.opTable_sem` proves to be the model's function -/
+theorem OpsVersion_sem : TableSem.codesOK Generated.opTable [.version] = true := by decide +kernel
 end Rules.Tie
